@@ -949,7 +949,7 @@ func GenC15(seed, index uint64) *Run {
 
 // GenC16: a shared read-only pool built by a sequential setup programme, then
 // 2..8 tasks that use the pool as arguments only.
-func GenC16(seed, index uint64, build string, funcs []string) *Run {
+func GenC16(seed, index uint64, build string, funcs, hot []string) *Run {
 	r := prng.New(prng.Mix(seed, index))
 	run := &Run{Prop: "C16", Seed: seed, Index: index, Build: build, NE: 1 + r.N(3), NS: 1 + r.N(3), Arena: true}
 	run.ObsAll = r.P(0.3)
@@ -976,6 +976,15 @@ func GenC16(seed, index uint64, build string, funcs []string) *Run {
 		}
 	}
 	run.Setup = append(run.Setup, g.program(r.N(8), 0.6, 0.15)...)
+	// byte arguments shared by several tasks: the same message / DST views are
+	// handed to more than one task (the statement speaks of sharing "message
+	// and DST slices"; a per-DST cache only misbehaves when two callers use
+	// the same tag)
+	var sharedPairs [][2]Bytes
+	for i, k := 0, 1+r.N(3); i < k; i++ {
+		m, d := g.msgDst()
+		sharedPairs = append(sharedPairs, [2]Bytes{m, d})
+	}
 	// shared state for the tasks
 	shared := g.m
 	nt := 2 + r.N(3)
@@ -1030,6 +1039,26 @@ func GenC16(seed, index uint64, build string, funcs []string) *Run {
 		if len(body) > 10 {
 			body = body[:10]
 		}
+		for bi := range body {
+			switch body[bi].K {
+			case "e.h2g", "e.e2g", "s.h2s":
+				if r.P(0.5) {
+					pr := sharedPairs[r.N(len(sharedPairs))]
+					body[bi].B = []Bytes{pr[0], pr[1]}
+					if r.P(0.3) { // same tag, own message
+						body[bi].B[0] = tg.bytesArg(r.Bytes(r.N(80)), "msg")
+					}
+				}
+			}
+		}
+		if r.P(0.35) {
+			// fixed-base multiplication, the commonest use of the group
+			k := "e.basefn"
+			if r.P(0.5) {
+				k = "e.base"
+			}
+			body = append(body, Op{K: k, R: 0}, Op{K: "e.mul", R: 0, A: []int{-(r.N(run.NS) + 2)}})
+		}
 		ops = append(ops, body...)
 		run.Tasks = append(run.Tasks, ops)
 		g.entropy, g.events = tg.entropy, tg.events
@@ -1050,7 +1079,13 @@ func GenC16(seed, index uint64, build string, funcs []string) *Run {
 		run.Sched = sched.Spec{Policy: "walk", P: p}
 	case 2:
 		var fs []string
-		if len(funcs) > 0 {
+		if len(hot) > 0 && r.P(0.6) {
+			// aim at the functions that touch package-level state or
+			// synchronisation: that is where a switch can tear shared state
+			for i, k := 0, 1+r.N(3); i < k; i++ {
+				fs = append(fs, hot[r.N(len(hot))])
+			}
+		} else if len(funcs) > 0 {
 			for i, k := 0, 1+r.N(4); i < k; i++ {
 				fs = append(fs, funcs[r.N(len(funcs))])
 			}
